@@ -251,7 +251,13 @@ class DictDecoder:
         """
         # xs:anyAttributes get it out of the way, it's the mapping exception!
         if var.is_attributes:
-            return dict(value)
+            try:
+                return dict(value)
+            except (TypeError, ValueError) as e:
+                raise ParserError(
+                    f"Failed to bind '{value}' "
+                    f"to {meta.clazz.__qualname__}.{var.name} field: {e}"
+                )
 
         # Repeating element, recursively bind the values
         if not recursive and var.list_element and isinstance(value, list):
